@@ -80,6 +80,13 @@ def build(desc):
         tc.reference_sequence.metadata = {"a": [1, 2]}
     if top == "rawmeta":
         tc.metadata = b"\x00\xff\x80raw"
+    # every reference-sequence field on its own (each has its own "is it there" test in the writers)
+    if top in ("refmeta", "rawmeta"):
+        tc.reference_sequence.metadata = b"\x01raw-ref\xff"
+    if top == "refurl":
+        tc.reference_sequence.url = "u"
+    if top == "refschema":
+        tc.reference_sequence.metadata_schema = tskit.MetadataSchema({"codec": "json"})
     if top == "empties":
         # explicitly empty strings are values too, distinct from the defaults
         tc.time_units = ""
@@ -472,7 +479,7 @@ def row_choices(tname, maxrows):
 
 
 def all_descs(tier):
-    tops = ["plain", "meta", "units", "refdata", "full", "rawmeta", "empties"]
+    tops = ["plain", "meta", "units", "refdata", "full", "rawmeta", "empties", "refmeta", "refurl", "refschema"]
     # single tables exhaustively (others empty), crossed with top-level variants and index
     for tname in TNAMES:
         for rows in row_choices(tname, 2):
